@@ -770,12 +770,17 @@ pub fn file_status(rules: &[(String, St)]) -> St {
 
 /// Evaluate a rules file on a document: per-rule statuses in file order.
 pub fn eval_file(doc: &V, file: &File) -> R<Vec<(String, St)>> {
-    if !file.default.is_empty() || !file.prules.is_empty() {
-        return Err(ModelErr::Unsupported("default rule / parameterised rules".into()));
+    if !file.prules.is_empty() {
+        return Err(ModelErr::Unsupported("parameterised rules".into()));
     }
     let cache = RefCell::new(HashMap::new());
     let c = Ctx { root: doc, value: doc.clone(), scopes: vec![mkscope(&file.lets, doc)], file, cache: &cache, depth: 0 };
     let mut out = vec![];
+    // clauses outside any rule are the body of one implicit rule `default`, reported first
+    if !file.default.is_empty() {
+        let d = Rule { name: "default".into(), when: None, lets: vec![], body: file.default.clone() };
+        out.push(("default".to_string(), eval_rule(&c, &d)?));
+    }
     for r in &file.rules {
         out.push((r.name.clone(), eval_rule(&c, r)?));
     }
